@@ -159,7 +159,7 @@ def run_case(spec, ctx):
                                 with _w.catch_warnings():
                                     _w.simplefilter('ignore')
                                     t2 = grb_solver.solve(f, display=False,
-                                                          params={'BarQCPConvTol': 1e-10})
+                                                          params={'BarQCPConvTol': 1e-10, 'TimeLimit': 30, 'Threads': 1})
                                 if t2.x is not None and abs(t2.objval - r[1]) <= lim + 10 * tol * abs(r[1]):
                                     ctx.count('gurobi_qcp_tolerance_artifact')
                                     continue
